@@ -217,6 +217,7 @@ pub fn dmsg(ctx: &Ctx, m: &DTLSMessage) -> String {
         DTLSMessage::Handshake(h) => c("Handshake", &[
             n(h.msg_type.0), n(h.length), n(h.message_seq), n(h.fragment_offset), n(h.fragment_length),
             dbody(ctx, &h.body),
+            (if m.is_fragment() { "is_fragment" } else { "not_fragment" }).to_string(),
         ]),
         DTLSMessage::ChangeCipherSpec => c("ChangeCipherSpec", &[]),
         DTLSMessage::Alert(a) => alert(a),
